@@ -66,3 +66,20 @@ func FromElkInt(v value.Value) (b *big.Int, normalised bool, ok bool) {
 	}
 	return nil, false, false
 }
+
+// Pick draws an index in [0, n) from fair coin flips.  rapid's integer
+// generators are deliberately biased towards small values, which starves the
+// later alternatives of a weighted choice; coin flips are uniform and still
+// shrink towards index 0.
+func Pick(t *rapid.T, n int, label string) int {
+	if n <= 1 {
+		return 0
+	}
+	v := 0
+	for i := 0; (1 << i) < n; i++ {
+		if rapid.Bool().Draw(t, label) {
+			v |= 1 << i
+		}
+	}
+	return v % n
+}
